@@ -224,14 +224,22 @@ def translate_pattern(pattern: str, flags: int = 0, xsd_version: str = '1.0',
                         else:
                             regex.append(pattern[pos + k])
                     pos += k  # pragma: no cover
-            elif pattern[pos] == 'i':
-                regex.append('[%s]' % I_SHORTCUT_REPLACE)
-            elif pattern[pos] == 'I':
-                regex.append('[^%s]' % I_SHORTCUT_REPLACE)
-            elif pattern[pos] == 'c':
-                regex.append('[%s]' % C_SHORTCUT_REPLACE)
-            elif pattern[pos] == 'C':
-                regex.append('[^%s]' % C_SHORTCUT_REPLACE)
+            elif pattern[pos] in 'iIcC':
+                # Name character escapes are not affected by the case-insensitive flag
+                if pattern[pos] in 'iI':
+                    shortcut_replace = I_SHORTCUT_REPLACE
+                else:
+                    shortcut_replace = C_SHORTCUT_REPLACE
+
+                if pattern[pos] in 'ic':
+                    shortcut_group = '[%s]' % shortcut_replace
+                else:
+                    shortcut_group = '[^%s]' % shortcut_replace
+
+                if flags & re.IGNORECASE:
+                    regex.append('(?-i:%s)' % shortcut_group)
+                else:
+                    regex.append(shortcut_group)
             elif pattern[pos] in 'pP':
                 block_pos = pos - 1
                 try:
